@@ -1712,3 +1712,52 @@ Proof.
       assert (Hpne : p <> x) by (pose proof (ids_in_range s _ Hrp p H); unfold x; lia).
       apply Hback in Hp; [|exact Hpne]. apply reach_spec in Hp; [|exact W]. rewrite Hp in Hre. discriminate.
 Qed.
+
+(* ------------------------------------------------------------------------------------------ *)
+(** * C20 with failing user hooks: the switch only matters for what the checks refuse *)
+
+Lemma set_parents_strip : forall cfg1 cfg2 ft s c cont args,
+  snd (set_parents cfg1 DNoFault s c cont args) = Ok ->
+  set_parents cfg2 ft s c cont args = set_parents cfg1 ft s c cont args.
+Proof.
+  intros cfg1 cfg2 ft s c cont args H. unfold set_parents in *.
+  destruct (check_parents s c cont args); [discriminate | reflexivity].
+Qed.
+
+Lemma set_children_strip : forall cfg1 cfg2 ft s p cont args,
+  snd (set_children cfg1 DNoFault s p cont args) = Ok ->
+  set_children cfg2 ft s p cont args = set_children cfg1 ft s p cont args.
+Proof.
+  intros cfg1 cfg2 ft s p cont args H. unfold set_children in *.
+  destruct (materialise cont); [reflexivity|].
+  destruct (check_children_loop s p args []); [discriminate | reflexivity].
+Qed.
+
+(** If the checks do not refuse the operation (the call with non-failing hooks is accepted), the
+    operation -- whatever its hooks do: pass, fail before, fail after -- gives the same state and the
+    same outcome under both settings of the switch; in particular the rollback is the same. *)
+Theorem dag_hook_failure_irrelevant : forall cfg1 cfg2 s o,
+  snd (dstep cfg1 s (strip_faults o)) = Ok -> dstep cfg2 s o = dstep cfg1 s o.
+Proof.
+  intros cfg1 cfg2 s o H. unfold dstep in *.
+  assert (Hr : dop_in_range s (strip_faults o) = dop_in_range s o) by (destruct o; reflexivity).
+  rewrite Hr in H. destruct (negb (dop_in_range s o)); [reflexivity|].
+  destruct o as [c cont args ft | p cont args ft | p | p nm | p c ft | c p ft | nm pa ca ftp ftc];
+    cbn [strip_faults] in H; try reflexivity.
+  - apply set_parents_strip. exact H.
+  - apply set_children_strip. exact H.
+  - apply set_parents_strip. exact H.
+  - apply set_parents_strip. exact H.
+  - unfold construct in *.
+    destruct (set_parents cfg1 DNoFault (alloc s nm) (dsize s) (carg_cont pa) (carg_args pa)) as [s2 o2] eqn:E1.
+    destruct o2; [|discriminate].
+    rewrite (set_parents_strip cfg1 cfg2 ftp) by (rewrite E1; reflexivity).
+    assert (E2 : forall st, set_parents cfg1 ftp (alloc s nm) (dsize s) (carg_cont pa) (carg_args pa) = (st, Ok) -> st = s2).
+    { intros st Hst. unfold set_parents in Hst, E1.
+      destruct (check_parents (alloc s nm) (dsize s) (carg_cont pa) (carg_args pa)); [discriminate|].
+      cbn [dfault_eqb] in E1. injection E1 as <-.
+      destruct (dfault_eqb ftp DPreFail); [discriminate|]. destruct (dfault_eqb ftp DPostFail); [discriminate|].
+      injection Hst as <-. reflexivity. }
+    destruct (set_parents cfg1 ftp (alloc s nm) (dsize s) (carg_cont pa) (carg_args pa)) as [st ot].
+    destruct ot; [|reflexivity]. rewrite (E2 st eq_refl). apply set_children_strip. exact H.
+Qed.
